@@ -175,6 +175,25 @@ Section Hydro.
     {| P_w := set_fc_gw grw (P_w p) (P_porges p); P_wmin := P_wmin p; P_porges := P_porges p; P_wnor := P_wnor p;
        P_wred := P_wred p |}.
 
+  (* Input with PTF = 0 (input.go:207-232): the route is decided PER HORIZON — explicit values where the soil file gives a
+     field capacity (FKA > 0), the texture table elsewhere.  Hydro runs for every horizon either way.  A horizon =
+     (table horizon, (FKA, WP, GPV) of the soil file in percent, 0 where the optional columns are empty).
+     Explicit values are NOT scaled by the stone content (and calcWRed gets the same unscaled values); table values and
+     the threshold Hydro computes are. *)
+  Definition fhorizon := (thorizon * (T * T * T))%type.
+  Definition file_horizon (grw : T) (h : fhorizon) : lpar * Z :=
+    let '((t, (fk, nfk, pv), c, st, ukt), (fka, wp, gpv)) := h in
+    (if zero <? fka then route_explicit fka wp gpv else route_table (hydro t fk nfk pv grw c st) st, ukt).
+  Definition file_wred (grw : T) (h : fhorizon) : T :=
+    let '((t, (fk, nfk, pv), c, st, ukt), (fka, wp, gpv)) := h in
+    if zero <? fka then wred_explicit (tex_is_sand t) fka wp else ho_wred (hydro t fk nfk pv grw c st).
+  Definition file_params (n : nat) (hz : list fhorizon) (grw : T) : params :=
+    params_of (layers n (map (file_horizon grw) hz)) (match hz with h :: _ => file_wred grw h | [] => zero end).
+  (* CAPPAR after Input = the decision of the last horizon (it is assigned in the layer loop of every horizon); the day
+     loop recomputes ALL horizons from the table when it is 0 and restores the backups when it is 1 (run.go:376-403) *)
+  Definition file_cappar (hz : list fhorizon) : bool :=
+    match rev hz with (_, (fka, _, _)) :: _ => zero <? fka | [] => false end.
+
   (* run.go:362-412, parameters only: nothing happens unless the level differs from yesterday's *)
   Record gwstate := { s_grw : T; s_par : params }.
   Definition day_step (upd : T -> params) (st : gwstate) (g : T) : gwstate :=
